@@ -176,6 +176,10 @@ Definition check_C14 (c : case) : Z :=
       verdict (obs_eqb (model_fmt kind (firstn (nvals kind) rest) pat) (c_out c)) (valid_out 9 (c_out c))
   | Op_rfc_parse, [], [s] => verdict (obs_same_class (obs_dt (dt_parse_rfc3339 s)) (c_out c)) (valid_out 2 (c_out c))
   | Op_fromstr, [kind], [s] => verdict (obs_same_class (model_fromstr kind s) (c_out c)) (valid_out kind (c_out c))
+  (* str::parse::<u8 | u32 | u64 | i32> against Text.parse_unsigned / Text.parse_signed *)
+  | Op_std_parse, [t], [s] =>
+      let m := match t with 0 => parse_unsigned 255 s | 1 => parse_unsigned U32_MAX s | 2 => parse_unsigned U64_MAX s | _ => parse_signed I32_MIN I32_MAX s end in
+      verdict (match m, c_out c with Some v, OOk [w] [] => v =? w | None, OErr 2 _ => true | _, _ => false end) true
   | _, _, _ => V_MALFORMED
   end.
 
